@@ -33,7 +33,7 @@ TECHNIQUE = ("explicit-state BFS over rewrite sequences on real Pipeline objects
 RULE = ("bases: 13 hand-picked G-DAG pipelines (chain, diamond, fan-in, tuple-output leaf / interior, nullary, signature / PipeFunc default, bound root / "
         "upstream, renamed, disconnected, shared root) + the five MapSpec pipelines of C03; thorough adds ALL G-DAG pipelines with N<=3 functions and the "
         "default/bound decorations of N<=2. Alphabet: copy, cloudpickle round trip, join and | with a disjoint fresh pipeline, update_renames (every root / "
-        "output -> fresh name), a default set through one FUNCTION after the pipeline has been used, update_renames(..., overwrite=True) after earlier renamings (all undone), nest of a pair with ONE exported name (new_output_name = last output of the leaf), function-level update_scope with exclude and pipeline-level update_scope with exclude, update_scope('s') on inputs / outputs / both and update_scope(None) likewise (thorough: re-scoping to 't'), nest_funcs "
+        "output -> fresh name), a default set through one FUNCTION after the pipeline has been used, one update_renames call that exchanges two output names, update_renames(..., overwrite=True) after earlier renamings (all undone), nest of a pair with ONE exported name (new_output_name = last output of the leaf), function-level update_scope with exclude and pipeline-level update_scope with exclude, update_scope('s') on inputs / outputs / both and update_scope(None) likewise (thorough: re-scoping to 't'), nest_funcs "
         "(every convex subset of >= 2 top-level nodes with one leaf, in place and on a copy, and '*'), simplified_pipeline(every node, both "
         "conservatively_combine), split_disconnected (every component), add_mapspec_axis(every root, fresh axis; thorough: a second axis and zipping "
         "another root onto an added axis). BFS over sequences of length <= 2 (quick; thorough: <= 3 for the hand-picked bases and N<=2, <= 2 for the "
@@ -344,6 +344,10 @@ def apply_impl(p, op, m):  # noqa: C901, PLR0911, PLR0912
     if k == "rename":
         p.update_renames({op[1]: op[2]})
         return p
+    if k == "rename-swap":
+        # ONE update_renames call that exchanges two output names (passes through a state in which both functions claim one name)
+        p.update_renames({op[1]: op[2], op[2]: op[1]})
+        return p
     if k == "rename-ow":
         # update_renames(..., overwrite=True): every earlier renaming (scopes included) is undone, only this one remains
         p.update_renames({op[1]: op[2]}, overwrite=True)
@@ -437,6 +441,9 @@ def apply_model(m, op, q):  # noqa: C901, PLR0912
         m.groups.append(frozenset([f"j{n}"]))
         m.must.add(f"jo{n}")
         m.njoin += 1
+    elif k == "rename-swap":
+        a_, b_ = inv[op[1]], inv[op[2]]
+        m.M[a_], m.M[b_] = op[2], op[1]
     elif k == "rename-ow":
         tgt = inv[op[1]]
         for n in m.M:
@@ -570,6 +577,22 @@ def exclusive_roots(m, fname):
 
 
 def ops_of(p, m, hist, tier):  # noqa: C901, PLR0912
+    ops = _ops_of(p, m, hist, tier)
+    # a rename target must be a name nobody holds (the fresh name of one base may already have been given to another one by an
+    # earlier overwrite / swap): such a request is rightly refused and is not part of the alphabet
+    cur = {m.M[n] for n in m.roots() + m.outputs()}
+    out = []
+    for op in ops:
+        if op[0] in ("rename", "rename-f", "rename-ow") and op[2] in cur:
+            nm = op[2]
+            while nm in cur:
+                nm += "r"
+            op = [op[0], op[1], nm]
+        out.append(op)
+    return out
+
+
+def _ops_of(p, m, hist, tier):  # noqa: C901, PLR0912
     thorough = tier == "thorough"
     ops = [["copy"], ["pickle"]]
     if sum(1 for o in hist if o[0] == "join") < (2 if thorough else 1):
@@ -583,6 +606,11 @@ def ops_of(p, m, hist, tier):  # noqa: C901, PLR0912
     if (all(len(g) == 1 for g in m.groups) and not any(f.get("ren") for f in m.spec["funcs"]) and any(m.M[n] != n for n in roots + outs)
             and not any(o[0] == "rename-ow" for o in hist) and outs):
         ops.append(["rename-ow", m.M[outs[0]], fresh(m.M[outs[0]])])
+    if len(outs) >= 2 and all(len(g) == 1 for g in m.groups) and not any(o[0] == "rename-swap" for o in hist):
+        # the first two outputs in LISTING order (so that the function listed first receives the name the second still holds)
+        listed = [o for f_ in m.spec["funcs"] if f_["name"] in m.alive() for o in f_["outs"][:1] if o not in m.dropped]
+        if len(listed) >= 2:
+            ops.append(["rename-swap", m.M[listed[0]], m.M[listed[1]]])
     if m.fam == "dag" and roots and not any(o[0] == "default" for o in hist):
         ops.append(["default", m.M[roots[0]]])  # a default set AFTER construction (must survive copies, nesting, ...)
     if m.fam == "dag" and not any(o[0] in ("default", "default-f") for o in hist):
